@@ -15,6 +15,14 @@ IMPORT_FORMS = ["local", "from_plain", "from_alias"]
 INST_POSITIONS = [p for p in STMT_POSITIONS if p not in ("assign_target", "augassign", "del", "subscript_target", "await", "yield", "with_item", "with_item_as")] + ["with_item", "with_item_as"]
 
 
+# class names whose SHAPE could be mistaken for something else (case variants of built-ins, typing-like, prefixes of built-ins, private, lower case)
+TRICKY_NAMES = ["Range", "Slice", "Property", "Object", "Type", "Set", "Tuple", "Str", "Int", "Float", "Bytes", "Super", "Listing", "Dictionary", "Printer",
+                "Lens", "Opener", "_Private", "__Dunder", "lowercase_cls", "X", "Node2", "HTTPServerError", "Iterable2", "Mapping_"]
+# how an instantiation can sit inside another call: {O} = the outer callee (another coupled class, a plain function, a method), {E} = the inner instantiation
+NEST_STYLES = {"arg_of_class": "{O}({E})", "kwarg_of_class": "{O}(dep={E})", "second_arg_of_class": "{O}(1, {E})", "arg_of_arg": "{O}(print({E}))",
+               "both_args": "{O}({E}, other={E})", "list_arg": "{O}([{E}])"}
+
+
 class ClassSpec:
     """a class built from mention specs; every coupled class has an integer id, a real name and (for from_alias) a bound name"""
 
@@ -37,7 +45,7 @@ def render(spec, member_order=None, extra_unrelated=0, self_name=None):
             imports.append("from lib%d import %s" % (cid % 3, real))
         elif form == "from_alias":
             imports.append("from lib%d import %s as %s" % (cid % 3, real, bound))
-        elif form == "builtin":
+        elif form in ("builtin", "self"):
             pass
     for k in range(extra_unrelated):
         locals_.append("class Unrelated%d:\n    def run(self):\n        return %d\n" % (k, k))
@@ -67,6 +75,12 @@ def render(spec, member_order=None, extra_unrelated=0, self_name=None):
             I = "        "
             t = STMT_POSITIONS[pos].replace("{E}", "%s()" % b).replace("{A}", "self.slot").replace("{I}", I)
             members.append("    %sdef meth%d(self, v=None):\n%s%s\n        return None" % ("async " if pos == "await" else "", k, I, t))
+        elif form == "instantiate_nested":
+            I = "        "
+            stmt_pos, style, outer = pos
+            e = NEST_STYLES[style].replace("{O}", spec.bound(outer)).replace("{E}", "%s()" % b)
+            t = STMT_POSITIONS[stmt_pos].replace("{E}", e).replace("{A}", "self.slot").replace("{I}", I)
+            members.append("    def meth%d(self, v=None):\n%s%s\n        return None" % (k, I, t))
     if member_order is not None:
         members = [members[i] for i in member_order]
     body = "\n\n".join(members) if members else "    pass"
@@ -80,6 +94,10 @@ def gen_spec(rng, idx):
     for cid in range(1, n_other + 1):
         form = rng.choice(IMPORT_FORMS)
         real = "Dep%d_%d" % (idx, cid)
+        if rng.random() < 0.25:
+            real = rng.choice(TRICKY_NAMES) + ("" if rng.random() < 0.5 else str(cid))
+            if any(real == o[1] for o in s.others.values()):
+                real = "Dep%d_%d" % (idx, cid)
         s.others[cid] = (form, real, ("Al%d_%d" % (idx, cid)) if form == "from_alias" else real)
     for b in range(rng.randint(0, 2)):
         cid = 100 + b
@@ -92,6 +110,10 @@ def gen_spec(rng, idx):
         if form == "base" and s.others[cid][0] == "builtin" and s.others[cid][1] in ("int", "str", "list", "dict"):
             form = "attr_hint"
         pos = rng.choice(INST_POSITIONS) if form == "instantiate" else None
+        real_ids = [i for i in ids if s.others[i][0] != "builtin"]
+        if form == "instantiate" and real_ids and rng.random() < 0.3:
+            form = "instantiate_nested"
+            pos = (rng.choice(["assign_value", "assign_value", "return", "call_arg", "if_cond", "else_body", "annotated"]), rng.choice(list(NEST_STYLES)), rng.choice(real_ids))
         s.mentions.append((cid, form, pos))
     return s
 
@@ -99,7 +121,11 @@ def gen_spec(rng, idx):
 def expected(spec, include_builtins=False):
     ids = []
     for cid, form, pos in spec.mentions:
+        if form == "instantiate_nested" and pos[2] not in ids:
+            ids.append(pos[2])
         if spec.others[cid][0] == "builtin" and not include_builtins:
+            continue
+        if spec.others[cid][0] == "self":
             continue
         if cid not in ids:
             ids.append(cid)
@@ -142,14 +168,38 @@ def run(tier, seed, replay=None):
             s.others[1] = (form, "Target", "Tg" if form == "from_alias" else "Target")
             s.mentions.append((1, mform, None))
             cases.append((("form", mform, form), s, render(s), [1]))
+    # name shapes: a coupled class whose name merely LOOKS like a built-in / typing name is still a class
+    for nm in TRICKY_NAMES:
+        for form in ("local", "from_plain"):
+            for mform, pos in (("base", None), ("attr_hint", None), ("param_hint_generic", None), ("instantiate", "assign_value")):
+                s = ClassSpec("Subject")
+                s.others[1] = (form, nm, nm)
+                s.mentions.append((1, mform, pos))
+                cases.append((("name", nm, form + "/" + mform), s, render(s), [1]))
+    # the class's own name is not an OTHER class: instantiating / annotating with itself adds nothing
+    for mform, pos in (("attr_hint", None), ("param_hint", None), ("return_hint", None), ("attr_hint_generic", None), ("instantiate", "return"), ("instantiate", "assign_value")):
+        s = ClassSpec("Subject")
+        s.others[1] = ("local", "Helper", "Helper")
+        s.others[2] = ("self", "Subject", "Subject")
+        s.mentions += [(1, "attr_hint", None), (2, mform, pos)]
+        cases.append((("selfref", mform, str(pos)), s, render(s), [1]))
+    # nesting: an instantiation written inside the argument list of another instantiation
+    for style in NEST_STYLES:
+        for stmt_pos in ("assign_value", "return", "call_arg", "annotated", "else_body", "with_item"):
+            for form in IMPORT_FORMS:
+                s = ClassSpec("Subject")
+                s.others[1] = (form, "Inner", "In" if form == "from_alias" else "Inner")
+                s.others[2] = ("local", "Outer", "Outer")
+                s.mentions.append((1, "instantiate_nested", (stmt_pos, style, 2)))
+                cases.append((("nest", style, stmt_pos + "/" + form), s, render(s), [1, 2]))
     for i in range(nrand):
         s = gen_spec(rng, i)
         cases.append((("random", "", ""), s, render(s), expected(s)))
     go = C.harness_batch("cbo", [{"Src": src} for _, _, src, _ in cases])
     lines = []
     for tag, s, src, exp in cases:
-        ex = ",".join(str(c) for c, (f, _, _) in s.others.items() if f == "builtin") or "-"
-        ms = ",".join(str(c) for c, _, _ in s.mentions) or "-"
+        ex = ",".join(str(c) for c, (f, _, _) in s.others.items() if f in ("builtin", "self")) or "-"
+        ms = ",".join(",".join([str(c)] + ([str(p[2])] if f == "instantiate_nested" else [])) for c, f, p in s.mentions) or "-"
         lines.append("cbo %s %s" % (ex, ms))
     model = C.driver_batch(lines) if os.path.exists(C.driver_path()) else None
     if model is None:
@@ -164,7 +214,7 @@ def run(tier, seed, replay=None):
             continue
         c = subject(g, s.name)
         hist["classes"] += 1
-        if tag[0] in ("matrix", "form"):
+        if tag[0] in ("matrix", "form", "name", "nest", "selfref"):
             hist["matrix_cells"] += 1
         if c is None:
             res.violation("C13: class %s missing from the CBO result" % s.name, {"source": src})
@@ -180,6 +230,12 @@ def run(tier, seed, replay=None):
                 sig = {"kind": "position", "position": tag[1], "import": tag[2]}
             elif tag[0] == "form":
                 sig = {"kind": "mention-form", "form": tag[1], "import": tag[2]}
+            elif tag[0] == "selfref":
+                sig = {"kind": "self-reference", "form": tag[1]}
+            elif tag[0] == "name":
+                sig = {"kind": "name-shape", "name": tag[1], "how": tag[2]}
+            elif tag[0] == "nest":
+                sig = {"kind": "nested-instantiation", "style": tag[1], "where": tag[2]}
             else:
                 missing = [n for n in want_names if n not in c["deps"]]
                 extra = [n for n in c["deps"] if n not in want_names]
